@@ -517,6 +517,12 @@ pub fn main(o: &Opts) {
     let mut emitted = 0usize;
     let mut cfg = r.below(SQLS.len() as u64);
     let per_cfg = (o.cases / 6).clamp(40, 400);
+    // every run starts with one fixed multi-batch body (40 rows in row groups of 16, shard 1 of 2 holds two batches)
+    {
+        let data = json!({"seed": 7, "f_rows": 40, "f_files": 1, "f_rg": 16, "g_rows": 3, "g_files": 1, "g_rg": 1000, "kdom": 3, "nulls": 0});
+        let c = json!({"kind": "decode", "data": data, "n": 2, "shard": 1, "sql": "SELECT id, k, v FROM f"});
+        let i = run_case(&c); emit(c, i); emitted += 1;
+    }
     while emitted < o.cases {
         cfg += 1;
         let data = gen_data_spec(&mut r);
